@@ -6,7 +6,7 @@ import itertools, json, math
 from harness.common import fhex
 PID = "C07"; COQ_TARGET = "C07"
 RULE = ("exhaustive: {stochastic} x {delay None/False/True} x {safe} x {volume False/True/1.7/Volume()/dividing StochasticTimeThresholdVolume} x {dataframe, result object} x {Model, pre-built interface} = 240 "
-        "combinations x 4 models (with/without delayed reactions, with/without assignment rules), uniform grid from 0; non-trivial = every combination")
+        "combinations x 5 models (with/without delayed reactions, with/without assignment rules, rules on the dt schedule), uniform grid from 0; non-trivial = every combination")
 TRUSTED = ["hand model coq/Model/Dispatch.v tied by exhaustive correspondence over the option lattice"]
 ASSUMPTIONS = ["numeric volumes are positive (quantifier)", "shape / label / first-row clauses are decided by the harness oracle on the lattice; mechanised only for the SSA loop's row count"]
 
@@ -15,10 +15,15 @@ MODELS = {
  "delay": {"species": ["A", "B"], "reactions": [[["A"], [], "massaction", {"k": 0.8}, "fixed", [], ["B"], {"delay": 0.5}], [["B"], [], "massaction", {"k": 0.3}]], "rules": [], "x0": {"A": 9.0, "B": 2.0}},
  "rules": {"species": ["A", "B", "R", "T2"], "reactions": [[["A"], ["B"], "massaction", {"k": 0.8}]],
            "rules": [["assignment", {"equation": "R = 2*A + 1"}], ["additive", {"equation": "T2 = A + R"}]], "x0": {"A": 9.0, "B": 2.0, "R": 0.0, "T2": 0.0}},
+ # rules on the dt schedule (frequency "dt") are assignment rules too: the first row shows them applied in every mode
+ # (seeded change S4_C07: the delay simulator started with rule_step = 0)
+ "dtrules": {"species": ["A", "B", "R", "D1"], "reactions": [[["A"], ["B"], "massaction", {"k": 0.8}], [["B"], [], "massaction", {"k": 0.3}, "fixed", [], ["A"], {"delay": 0.4}]],
+             "rules": [["assignment", {"equation": "R = 2*A + 1"}], ["assignment", {"equation": "D1 = 3*A + 2"}, "dt"]], "x0": {"A": 9.0, "B": 2.0, "R": 0.0, "D1": 0.0}},
  "delay+rules": {"species": ["A", "B", "R"], "reactions": [[["A"], [], "massaction", {"k": 0.8}, "gamma", [], ["B"], {"k": 2.0, "theta": 0.2}]],
                  "rules": [["assignment", {"equation": "R = A + B"}]], "x0": {"A": 9.0, "B": 2.0, "R": 0.0}},
 }
-FIRST_ROW = {"plain": {"A": 9.0, "B": 2.0}, "delay": {"A": 9.0, "B": 2.0}, "rules": {"A": 9.0, "B": 2.0, "R": 19.0, "T2": 28.0}, "delay+rules": {"A": 9.0, "B": 2.0, "R": 11.0}}
+FIRST_ROW = {"plain": {"A": 9.0, "B": 2.0}, "delay": {"A": 9.0, "B": 2.0}, "rules": {"A": 9.0, "B": 2.0, "R": 19.0, "T2": 28.0}, "delay+rules": {"A": 9.0, "B": 2.0, "R": 11.0},
+             "dtrules": {"A": 9.0, "B": 2.0, "R": 19.0, "D1": 29.0}}
 VOLS = ["off", "true", "num", "obj", "divobj"]   # divobj: an initialised StochasticTimeThresholdVolume that divides inside the window
 
 def gen_cases(seed, tier):
